@@ -54,6 +54,19 @@ def run(ctx):
         for p in r.payloads:
             if p["n_beta"] != p["iteration"]:
                 ctx.violation("payload-stale", f"payload at iteration {p['iteration']} carries a history of {p['n_beta']} iterations", {"cfg": cfg})
+        if cfg["ckpt"] == "every-only" and r.payloads:
+            # no callback given: the sampler keeps the latest payload itself (last_checkpoint_state / last_checkpoint_bytes)
+            last = r.payloads[-1]
+            kept, kept_b = r.sampler.last_checkpoint_state, r.sampler.last_checkpoint_bytes
+            ok_state = kept is last["live"]
+            try:
+                ok_bytes = kept_b is not None and pickle.loads(kept_b)["iteration"] == last["iteration"] \
+                    and len(pickle.loads(kept_b)["history"].beta) == last["n_beta"]
+            except Exception:
+                ok_bytes = False
+            if not (ok_state and ok_bytes):
+                ctx.violation("kept-payload-not-current", f"after the run last_checkpoint_state is the last emitted payload: {ok_state}; last_checkpoint_bytes holds it: {ok_bytes}",
+                              {"cfg": cfg, "last_emitted_iteration": last["iteration"]})
         if len(ctx.samples) < 3 and has_cb:
             ctx.sample({"every": every, "iterations": T, "callback_invocations": got})
     # ---------------- (b) file + fault injection
